@@ -63,3 +63,38 @@ pub fn run(p: &Params) -> Report {
     });
     rep
 }
+
+pub fn pool_sizes() {
+    let mut rng = crate::util::Rng::new(5);
+    let pool = crate::props::c05::record_pool(&mut rng, 40);
+    let mut sizes: Vec<usize> = pool.iter().map(|e| crate::peer::rlp_ref::encode_record(e).len()).collect();
+    sizes.sort();
+    println!("{sizes:?}");
+}
+
+pub fn max_record() {
+    use discv5::Enr;
+    let mut rng = crate::util::Rng::new(5);
+    let sk = crate::peer::peersim::signing_key(&mut rng);
+    let key = crate::peer::peersim::combined(&sk);
+    for pad in 150..200usize {
+        let mut b = Enr::builder();
+        b.seq(1);
+        b.ip4(std::net::Ipv4Addr::new(10, 0, 0, 1));
+        b.udp4(9000);
+        b.add_value("zpad", &vec![0xABu8; pad].as_slice());
+        match b.build(&key) {
+            Ok(e) => println!("pad {pad}: len {}", alloy_rlp::encode(&e).len()),
+            Err(e) => println!("pad {pad}: {e:?}"),
+        }
+    }
+}
+
+pub fn raw_rec() {
+    let mut rng = crate::util::Rng::new(5);
+    let sk = crate::peer::peersim::signing_key(&mut rng);
+    for t in [120usize, 296, 299, 300, 301] {
+        let e = crate::peer::peersim::record_of_size(&sk, 3, Some(crate::rig::r1::v4(10, 0, 0, 9, 9000)), t);
+        println!("target {t}: {:?}", e.map(|e| (alloy_rlp::encode(&e).len(), e.udp4_socket(), e.seq())));
+    }
+}
